@@ -90,6 +90,7 @@ func (m *DefaultInterfaceMocker) Apply(callback interface{}) {
 		panic("method is empty")
 	}
 	m.applyByIFaceMethod(m.ctx, m.iFace, m.method, callback, nil)
+	m.when = nil
 }
 
 // As 将接口方法 mock 为实际的接收体方法
